@@ -53,14 +53,16 @@ type c12Case struct {
 	CancelDelay int64     `json:"canceldelay"`
 	StartDelay  int64     `json:"startdelay"`
 
-	Trace  [][]int64 `json:"trace"` // [0,k,ts,te,sameMsg] | [1,n,d,mr,errOK] | [2,n,d]
-	Outs   []int64   `json:"outs"`
-	Err    int64     `json:"err"`
-	TRet   int64     `json:"tret"`
-	CPre   int64     `json:"cpre"` // -1 = never cancelled
-	CPost  int64     `json:"cpost"`
-	Done   bool      `json:"done"`
-	Settle int       `json:"settle"` // router mode: 1 acked, 2 nacked, 0 unsettled; -1 = not run through a Router
+	Trace     [][]int64 `json:"trace"` // [0,k,ts,te,sameMsg] | [1,n,d,mr,errOK] | [2,n,d]
+	Outs      []int64   `json:"outs"`
+	Err       int64     `json:"err"`
+	TRet      int64     `json:"tret"`
+	CPre      int64     `json:"cpre"` // -1 = never cancelled
+	CPost     int64     `json:"cpost"`
+	Done      bool      `json:"done"`
+	Pub       int       `json:"pub"`       // router mode: publisher behaviour 0 accept, 1 error
+	Published [][]int64 `json:"published"` // router mode: the Publish calls carrying this message's outputs
+	Settle    int       `json:"settle"`    // router mode: 1 acked, 2 nacked, 0 unsettled; -1 = not run through a Router
 
 	mu       sync.Mutex
 	msg      *message.Message
@@ -223,7 +225,11 @@ func (l c12Logger) Error(msg string, err error, f watermill.LogFields) {
 	if err != nil && err == c.lastErr {
 		errOK = 1
 	}
-	c.Trace = append(c.Trace, []int64{1, int64(n), int64(d), int64(mr), errOK})
+	errID := int64(999) // identity of the error handed to the logger
+	if id, ok := c.errs[err]; ok {
+		errID = id
+	}
+	c.Trace = append(c.Trace, []int64{1, int64(n), int64(d), int64(mr), errOK, errID})
 	c.mu.Unlock()
 }
 func (l c12Logger) Info(string, watermill.LogFields)                 {}
@@ -388,6 +394,9 @@ func (g *c12Group) runRouter(cases []*c12Case, retryMw message.HandlerMiddleware
 	}
 	sub := script.NewSubscriber(true)
 	pub := &script.Publisher{}
+	if cases[0].Pub == 1 {
+		pub.OnPublish = func(int, string, []*message.Message) error { return fmt.Errorf("scripted publish failure") }
+	}
 	h := router.AddHandler("h", "in", sub, "out", pub, g.handler)
 	recorder := func(next message.HandlerFunc) message.HandlerFunc {
 		return func(msg *message.Message) ([]*message.Message, error) {
@@ -436,6 +445,26 @@ func (g *c12Group) runRouter(cases []*c12Case, retryMw message.HandlerMiddleware
 	wg.Wait()
 	cancel()
 	_ = router.Close()
+	for _, call := range pub.Snapshot() {
+		if len(call.Msgs) == 0 {
+			continue
+		}
+		for _, c := range cases {
+			c.mu.Lock()
+			if _, ok := c.produced[call.Msgs[0]]; ok {
+				ids := []int64{}
+				for _, m := range call.Msgs {
+					if id, ok := c.produced[m]; ok {
+						ids = append(ids, id)
+					} else {
+						ids = append(ids, 9999)
+					}
+				}
+				c.Published = append(c.Published, ids)
+			}
+			c.mu.Unlock()
+		}
+	}
 }
 
 func c12RunGroup(cases []*c12Case) {
@@ -651,7 +680,12 @@ func c12Generate(seed int64, scale int) [][]*c12Case {
 			if cfg.MR > 5 {
 				cfg.MR = 5
 			}
+			pubBeh := 0
+			if i%3 == 2 {
+				pubBeh = 1
+			}
 			add("router", "router", cfg, 2+rng.Intn(4), func(i int, c *c12Case) {
+				c.Pub = pubBeh
 				c.Script = c12randScript(rng, cfg.MR)
 				c.StartDelay = int64(i) * c12pick64(rng, 0, 2, 5, 9) * c12ms
 			})
@@ -739,10 +773,12 @@ func c12Generate(seed int64, scale int) [][]*c12Case {
 		}
 		// F9: configurations the code does not validate: Multiplier <= 0, negative intervals,
 		// negative MaxElapsedTime (rf = 0: the randomisation window would be inverted otherwise)
-		for i := 0; i < 10; i++ {
+		for i := 0; i < 12; i++ {
 			cfg := c12Cfg{MR: c12pick(rng, 2, 3, 4), Init: c12pick64(rng, 2, 5) * c12ms, MaxI: c12pick64(rng, 6, 10) * c12ms,
 				Mult: [2]int64{2, 1}, RF: [2]int64{0, 1}}
-			switch i % 5 {
+			switch i % 6 {
+			case 5: // RandomizationFactor > 1: negative draws do not delay
+				cfg.RF = [2]int64{c12pick64(rng, 3, 5), 2}
 			case 0:
 				cfg.Mult = [2]int64{c12pick64(rng, -2, -1, -3), c12pick64(rng, 1, 2)}
 			case 1:
